@@ -48,6 +48,35 @@ CLAIMED.update({
                 "Rocq: renaming-invariance theorems; differential correspondence + re-rooting oracles", "5 / C16"),
 })
 
+
+CLAIMED.update({
+    "C03": pipe("Theorems: the expression trees that the backends really build (generated/OpImpls.v: Polars expr.meta.serialize JSON and SQLAlchemy trees re-read from /repo on every run) evaluate, under the primitive semantics of Model/ImplExpr.v, to the documented operator for all operands: floor division and modulo on Polars and SQLite, GREATEST / LEAST on SQLite for EVERY arity (divide-and-conquer recursion proved by induction, the generated trees of arity 2..6 proved to be that recursion), is_in, Kleene and/or/xor/not, clip, horizontal folds. Tie: translator + L1 operand grid (every operator x operand classes incl. nulls, negatives, zero divisors, ties) on both backends.",
+                "Rocq: emulation-correctness theorems over translator-generated implementation trees; differential operand grid", "5 / C03"),
+    "C12": pipe("Theorems: Model/Typing.v (transcription of dtype() / ftype()) - literals, casts, comparisons, boolean operators, integer arithmetic, Int/Int, counts: the value of a well-typed expression inhabits its static type (partial type soundness, the proved fragment is listed in Properties/C12.v). Tie: dtype oracle on every generated pipeline on both backends (static dtype of each visible column vs the exported Polars dtype; re-import and collect reproduce the types) + L1.",
+                "Rocq: typing lemmas on the transcribed type rules; dtype oracle on generated pipelines", "5 / C12"),
+    "C14": pipe("Theorems: Model/Typing + Proofs/RejectLemmas - a nested aggregate / window function is rejected in every position of every expression shape (occurs-induction: arguments, partition_by, arrange, case branches, casts), an unknown column is rejected, a non-boolean case condition is rejected. Tie: planted-defect stream (27 rules of invalid use x positions in generated pipelines: unknown / hidden / foreign columns, wrong types, nested aggregation, markers outside arrange, duplicate names, grouped misuse ...) must raise the documented error class at the verb call on both backends and leave the accepted prefix usable.",
+                "Rocq: rejection theorems on the transcribed type / function-type rules; planted-defect differential stream", "5 / C14"),
+    "C17": pipe("Theorems: the acceptance model (transcription of Cast.dtype / is_valid_cast) equals the running code's accepted pairs over the whole type universe (in-kernel, generated/CastTable.v), every documented conversion is accepted and nothing else is except implicit conversions and String->Enum; an accepted cast is typed with its target (const kept), a rejected one is a DataTypeError at build time; null stays null; value lemmas for Int<->Float<->String<->Bool<->Date<->Datetime. Tie: translator + cast grids (source values incl. edge values x targets) on both backends vs Model/Expr.cast_value.",
+                "Rocq: in-kernel model=code table equality + cast value lemmas; cast grid correspondence", "5 / C17"),
+    "C18": pipe("Theorems (all strings): quote_is_one_token - the rendering of any Python string (quotes doubled) followed by any text not starting with a quote reads back as exactly that string and that text, so the statement keeps its structure; LIKE with autoescape is the literal prefix / suffix test for every pattern (%, _ and the escape character included) and every subject. Tie: literal grid over an alphabet of SQL and LIKE metacharacters through equality, is_in, concatenation, starts_with / ends_with / contains, replace_all, case on both backends (L1) + text level: build_query contains the model's rendering and keeps the statement skeleton.",
+                "Rocq: tokenizer / LIKE-matcher theorems by induction on strings; literal grid + text-skeleton correspondence", "5 / C18"),
+})
+CLAIMED["C19"] = dict(
+    text="Theorems over generated/ImplReg.v (re-read from /repo every run: outcome of <Backend>Impl.get_impl for Polars, SQLite, PostgreSQL, SQL Server x every operator x every declared overload): the lookup yields an implementation or NotSupportedError, never another error; every table entry is an overload the type checker model accepts; every operator is covered on every backend. Tie / search: get_impl on ALL accepted argument tuples of the C13 enumeration (about 60 000) x every importable backend incl. DB2; operator compile grid (plain and nested operands) and literal grid on SQLite and on offline PostgreSQL / SQL Server engines; generated pipelines x 3 dialects: text or NotSupportedError / SubqueryError, identical text on repeat, rebuild and under other PYTHONHASHSEEDs, one statement, SQLite prepares it. PARTIAL: the SQL compilers are not modelled - the pipeline sentence of C19 is decided by these runs, not by a theorem.",
+    note="Trusted: Coq kernel + vm_compute; translate.py gen_implreg; stub DBAPI modules (harness/dialects.py) so that SQLAlchemy builds PostgreSQL / SQL Server engines offline (text generation only, never executed); DuckDB driver not importable here.",
+    technique="Rocq proof over a translator-generated implementation table (in-kernel totality) + exhaustive lookup enumeration + multi-dialect build_query differential runs",
+    design="5 / C19")
+CLAIMED["C20"] = dict(
+    text="Theorems (every frame: any width, height, cell type; empty, single cell): DictOfLists is the frame; ListOfDicts has one dict per row, each with the frame's names in order, and decodes back to the frame (so both hold the same value at every (row, name)); Dict applies exactly to one-row tables and is that row; Scalar applies exactly to single-cell tables and is that cell; wf_b (evaluated on every real frame) implies the hypothesis; the type re-imported from an exported frame is the storage type and storage types are fixed points (generated/PolarsTypes.v). Tie: Coq evaluates the encoders on the real export(Polars()) frame of generated pipelines and edge tables on both backends and compares with the real DictOfLists / ListOfDicts / Dict / Scalar; Python oracles for Polars(lazy=True), Pandas, ColExpr.export (Polars, Pandas), Table(<frame>) and Table(<pandas frame>).",
+    note="Trusted: Coq kernel + vm_compute; polars / pandas materialisation (third party) tied by evaluation only; SQL backends implement the Polars target only.",
+    technique="Rocq proof: encoder / decoder round-trip theorems by induction on frames; model-vs-implementation evaluation on every case + oracles",
+    design="5 / C20")
+CLAIMED["C10"] = dict(
+    text="Theorems: (1) history independence - in the session model (any interleaving of verb calls, exports, other calls) every export of a table is the value of the tree bound at its creation; (2) frame theorem - any straight-line path of heap statements that passes the static check leaves every pre-existing object unchanged, for all heaps and contents; the statement lists of Cache.update (all verb branches), preprocess_arg and _preprocess_expr, regenerated from /repo's source on every run, pass the check. Tie: busy session (shared expression objects reused under different grouping states and in mutate / summarize / filter / arrange, interleaved exports / build_query / printing, fingerprints of all pre-existing tables, expressions, source frames and database tables after every call) vs isolated rebuild: same canonical tree, metadata, rows and query text; L1 / L2 in Coq on the session's tables. PARTIAL: verb front ends, export clones and backend compilers are covered by the session runs only.",
+    note="Trusted: Coq kernel; translate.py EffectTranslator (fail-closed statement classification; whitelisted calls assumed effect-free, dtype()/ftype() memoisation excluded); harness/session.py fingerprint.",
+    technique="Rocq proof: induction over sessions; abstract-interpretation soundness (frame theorem) applied to translator-generated effect paths; session differential testing with object fingerprints",
+    design="5 / C10")
+
 REASON_TODO = "not yet built in this round (planned, DESIGN.md section 5); no check is registered rather than an empty one"
 
 def main():
